@@ -215,6 +215,11 @@ def make_cases(ctx, first):
                         twin = json.dumps(j).encode()
                         w.push(repo, twin, MT_OCI_M, list(w.g[repo].man[d0]["refs"]), tag="t2" if w.g[repo].tags.get("t2") != d0 else "t1", kind="image")
                         w.add(blob_delete(repo, d0))
+                if rng.random() < 0.3:
+                    # an upload session is open (between two chunks, or abandoned) while the collections run: it is none of their business
+                    ks_ = w.add(upload_post(repo))
+                    if rng.random() < 0.6:
+                        w.add(upload_patch(repo, "$SID%d$" % ks_, None, state_token(0), b"half-an-upload"))
                 w.age(repo, "all")
                 tg_ = w.g[repo].tags
                 imgs_ = [d for d in sorted(set(tg_.values())) if w.g[repo].man.get(d, {}).get("kind") == "image" and not w.g[repo].man[d].get("subject")]
